@@ -13,6 +13,9 @@ for n in sorted(os.listdir(os.path.join(VERIF, "checks"))):
 na_path = os.path.join(VERIF, "not_applicable.json")
 na = json.load(open(na_path)) if os.path.exists(na_path) else {}
 checks = []
+reg_path = os.path.join(VERIF, "registered.json")
+registered = set(json.load(open(reg_path))) if os.path.exists(reg_path) else set(mods)
+mods = {k: v for k, v in mods.items() if k in registered}
 for i in ids:
     if i not in mods:
         continue
